@@ -39,6 +39,8 @@ pub struct Plan {
     pub w: usize,           // config.workers (0 = None)
     pub env: Option<String>, // FLACENC_WORKERS
     pub fail_at: Option<usize>,
+    /// the read at which a byte source uses a container one byte too wide (a source error, like `fail_at`)
+    pub wide: bool,
     pub bad_blocks: Vec<usize>,
     pub bytes_mode: bool,
     pub intensity: u32,
@@ -55,8 +57,12 @@ fn make_source(pcm: &Pcm, bs: usize, plan: &Plan) -> (TestSource, Vec<bool>) {
             valid[j] = false;
         }
     }
-    let mut s = TestSource::new(&p, plan.bytes_mode && plan.bad_blocks.is_empty(), true);
-    s.fail_at = plan.fail_at;
+    let mut s = TestSource::new(&p, (plan.bytes_mode && plan.bad_blocks.is_empty()) || plan.wide, true);
+    if plan.wide {
+        s.wide_at = plan.fail_at;
+    } else {
+        s.fail_at = plan.fail_at;
+    }
     (s, valid)
 }
 
@@ -211,7 +217,7 @@ pub fn generate(seed: u64, cases: usize, out: &mut dyn FnMut(String)) {
         let mut c = Cfg::default();
         c.block_size = 64;
         let p = gen::pcm(&mut rng, "sine_noise", 2, 16, 44100, 300);
-        let base = Plan { w: 2, env: None, fail_at: None, bad_blocks: vec![], bytes_mode: false, intensity: 30 };
+        let base = Plan { w: 2, env: None, fail_at: None, wide: false, bad_blocks: vec![], bytes_mode: false, intensity: 30 };
         out(run_case("corpus-f8a-read-error", &c, &p, &Plan { fail_at: Some(2), ..base.clone() }, seed));
         out(run_case("corpus-f8b-bad-sample", &c, &p, &Plan { bad_blocks: vec![1], ..base.clone() }, seed));
         // more invalid blocks than there are frame buffers (2W): every buffer must come back
@@ -221,6 +227,9 @@ pub fn generate(seed: u64, cases: usize, out: &mut dyn FnMut(String)) {
     while i < cases {
         let mut cfg = gen::random_valid_cfg(&mut rng);
         cfg.block_size = *rng.pick(&[32usize, 64, 64, 96, 192, 256]);
+        if cfg!(feature = "experimental") && std::env::var("FVH_EXPERIMENTAL").is_ok() {
+            cfg.block_size = *rng.pick(&[192usize, 256, 576, 1024]);
+        }
         let bs = cfg.block_size;
         let nblocks = match rng.below(8) {
             0 => 0,
@@ -231,7 +240,17 @@ pub fn generate(seed: u64, cases: usize, out: &mut dyn FnMut(String)) {
         // "near-full tail" plans: a final block a few samples shorter than the block size, tonal content,
         // LPC with a tapered window, few blocks and several workers - per-thread caches keyed by (a function
         // of) the block length are then hit by one thread in single-thread mode and missed by a fresh worker
-        let near_full = rng.chance(15);
+        // experimental estimators keep per-thread state (only in the dedicated experimental run)
+        let exp_case = cfg!(feature = "experimental") && std::env::var("FVH_EXPERIMENTAL").is_ok() && rng.chance(60);
+        if exp_case {
+            cfg.use_lpc = true;
+            cfg.use_fixed = rng.chance(30);
+            cfg.use_direct_mse = true;
+            cfg.mae_steps = *rng.pick(&[0usize, 1, 2, 3]);
+            cfg.lpc_order = *rng.pick(&[2usize, 4, 8, 12]);
+            cfg.quant_precision = *rng.pick(&[12usize, 15]);
+        }
+        let near_full = !exp_case && rng.chance(15);
         let (nblocks, tail) = if near_full {
             (2 + rng.below(2) as usize, bs - 1 - rng.below(15.min(bs as u64 - 2)) as usize)
         } else {
@@ -242,10 +261,11 @@ pub fn generate(seed: u64, cases: usize, out: &mut dyn FnMut(String)) {
             cfg.window_rect = false;
             cfg.use_direct_mse = false;
         }
+        let nblocks = if exp_case { nblocks.max(4) } else { nblocks };
         let len = if nblocks == 0 { 0 } else { (nblocks - 1) * bs + if tail == 0 { bs } else { tail } };
         let ch = 1 + rng.below(3) as usize;
-        let fam = if near_full { *rng.pick(&["sine_noise", "sine_small", "tone_hf", "ar1"]) } else { *rng.pick(&gen::FAMILIES) };
-        let bps = *rng.pick(&gen::BPS);
+        let fam = if near_full || exp_case { *rng.pick(&["sine_noise", "sine_small", "tone_hf", "ar1"]) } else { *rng.pick(&gen::FAMILIES) };
+        let bps = if exp_case { *rng.pick(&[16usize, 16, 24]) } else { *rng.pick(&gen::BPS) };
         let rate = if rng.chance(50) { *rng.pick(&gen::RATES) } else { 1 + rng.below(96000) as usize };
         let pcm = gen::pcm(&mut rng, fam, ch, bps, rate, len);
         let (w, env) = match rng.below(10) {
@@ -258,8 +278,8 @@ pub fn generate(seed: u64, cases: usize, out: &mut dyn FnMut(String)) {
             6 => (ncpu.min(16), None),
             _ => (*rng.pick(&[1usize, 2, 3, 5, 8]), None),
         };
-        let (w, env) = if near_full { (*rng.pick(&[2usize, 3, 4]), None) } else { (w, env) };
-        let fault = if near_full { 9 } else { rng.below(10) };
+        let (w, env) = if near_full || exp_case { (*rng.pick(&[2usize, 3, 4]), None) } else { (w, env) };
+        let fault = if near_full || exp_case { 9 } else { rng.below(10) };
         let fail_at = if fault == 0 || fault == 1 || fault == 2 { Some(rng.below(nblocks as u64 + 2) as usize) } else { None };
         let mut bad_blocks = vec![];
         if (fault == 2 || fault == 3 || fault == 4) && nblocks > 0 {
@@ -272,7 +292,10 @@ pub fn generate(seed: u64, cases: usize, out: &mut dyn FnMut(String)) {
                 }
             }
         }
-        let plan = Plan { w, env, fail_at, bad_blocks, bytes_mode: rng.chance(30), intensity: *rng.pick(&[0u32, 10, 40, 80]) };
+        // a read "failure" is either an error returned by the source itself or a byte fill with the wrong
+        // container width, which the fill must reject (only meaningful below 25 bits and without bad blocks)
+        let wide = fail_at.is_some() && bad_blocks.is_empty() && pcm.bps <= 24 && fail_at.unwrap() < nblocks && rng.chance(35);
+        let plan = Plan { w, env, fail_at, wide, bad_blocks, bytes_mode: rng.chance(30), intensity: *rng.pick(&[0u32, 10, 40, 80]) };
         out(run_case(&format!("p{i}"), &cfg, &pcm, &plan, seed.wrapping_add(i as u64 * 7919)));
         i += 1;
     }
